@@ -375,6 +375,32 @@ class SBool:
             return self.b(env)
         raise AssertionError(k)
 
+    def tighten(self, margin, neg=False):
+        """a formula implying self (resp. its negation when neg) with every inequality pulled `margin` inside;
+        used only to look for counterexamples that survive floating-point replay"""
+        k = self.k
+        if k == "const":
+            return SBool("const", (not self.a) if neg else self.a)
+        if k == "not":
+            return self.a.tighten(margin, not neg)
+        if k in ("and", "or"):
+            parts = [x.tighten(margin, neg) for x in self.a]
+            kk = k if not neg else ("or" if k == "and" else "and")
+            return s_and(parts) if kk == "and" else s_or(parts)
+        if k == "cmp":
+            op = self.a
+            if neg:
+                op = {"lt": "ge", "le": "gt", "gt": "le", "ge": "lt", "eq": "ne", "ne": "eq"}[op]
+            m = Poly.const(margin)
+            if op in ("lt", "le"):
+                return _cmp0(self.b.add(m), "le")
+            if op in ("gt", "ge"):
+                return _cmp0(self.b.sub(m), "ge")
+            if op == "ne":
+                return s_or([_cmp0(self.b.add(m), "le"), _cmp0(self.b.sub(m), "ge")])
+            return SBool("cmp", "eq", self.b)
+        return (~self) if neg else self
+
     def __invert__(self):
         if self.k == "const":
             return SBool("const", not self.a)
@@ -602,7 +628,17 @@ class Sym:
 
     def __rtruediv__(self, o):
         if isinstance(o, np.ndarray):
-            return _bcast(self, o, lambda a, b: b / a)
+            r = _bcast(self, o, lambda a, b: b / a)
+            if not self.is_const() and self.isreal():
+                # array / (its own sum): record the valid lemma sum(quotients) == 1
+                try:
+                    num = [Sym.of(x) for x in np.ndarray.reshape(np.asarray(o, dtype=object), -1)]
+                    quo = [Sym.of(x) for x in np.ndarray.reshape(r, -1)]
+                    if all(x.isreal() for x in num):
+                        CTX.lemma_normalised([q.re for q in quo], [x.re for x in num], self.re)
+                except Exception:
+                    pass
+            return r
         o = Sym.of(o)
         if o is NotImplemented:
             return o
@@ -993,9 +1029,28 @@ class Ctx:
         a = self.fresh("div", ev=ev)
         q = Poly.atom(a)
         prod = q.mul(d)
-        # q*d == n : linear in the monomial variables; the monomial definitions make it exact
-        self.add_def(prod.z3() == n.z3())
+        # q*d == n : linear in the monomial variables; the monomial definitions make it exact.
+        # Sign / magnitude facts (valid consequences) keep the relaxation sharp.
+        nz_, dz_, qz_ = n.z3(), d.z3(), a.z3v
+        self.add_def(z3.And(prod.z3() == nz_,
+                            z3.Implies(z3.And(dz_ > 0, nz_ >= 0), qz_ >= 0), z3.Implies(z3.And(dz_ > 0, nz_ <= 0), qz_ <= 0),
+                            z3.Implies(z3.And(dz_ < 0, nz_ >= 0), qz_ <= 0), z3.Implies(z3.And(dz_ < 0, nz_ <= 0), qz_ >= 0),
+                            z3.Implies(z3.And(dz_ > 0, nz_ <= dz_), qz_ <= 1), z3.Implies(z3.And(dz_ > 0, nz_ >= dz_), qz_ >= 1),
+                            z3.Implies(z3.And(dz_ > 0, nz_ >= -dz_), qz_ >= -1), z3.Implies(nz_ == dz_, qz_ == 1)))
         return q
+
+    def lemma_normalised(self, quotients, numerators, d: Poly):
+        """quotients q_i = n_i / d with sum(n_i) == d syntactically  =>  sum(q_i) == 1 (d != 0 on this path)"""
+        tot = ZERO
+        for n in numerators:
+            tot = tot.add(n)
+        if tot.sub(d).t:
+            return False
+        sq = ZERO
+        for q in quotients:
+            sq = sq.add(q)
+        self.add_def(sq.z3() == z3.RealVal(1))
+        return True
 
     def def_sqrt(self, s: Sym) -> Sym:
         nn = _cmp0(s.re, "ge")
@@ -1121,13 +1176,16 @@ class PathResult:
         self.ndef = ctx.ndef
 
 
-def bounds_constraints():
+def bounds_constraints(margin=0.0):
     out = []
     for a in REG.atoms:
+        m = 0
+        if margin and a.kind == "real" and a.lo is not None and a.hi is not None and a.hi > a.lo:
+            m = frac(margin) * min(1, frac(a.hi) - frac(a.lo))
         if a.lo is not None:
-            out.append(a.z3v >= (_rv(frac(a.lo)) if a.kind == "real" else int(a.lo)))
+            out.append(a.z3v >= (_rv(frac(a.lo) + m) if a.kind == "real" else int(a.lo)))
         if a.hi is not None:
-            out.append(a.z3v <= (_rv(frac(a.hi)) if a.kind == "real" else int(a.hi)))
+            out.append(a.z3v <= (_rv(frac(a.hi) - m) if a.kind == "real" else int(a.hi)))
     return out
 
 
